@@ -281,11 +281,12 @@ Section Tail.
     specialize (Hsr sir). unfold Wp in HW. specialize (HW Hek ltac:(lia)). lia.
   Qed.
 
-  Theorem locate_core_opt_tail rs re qs qe sc e c :
+  (** the reported cost is minimal over ALL admissible starts in the query, not only the reported one *)
+  Theorem locate_core_opt_tail_gen rs re qs qe sc e :
     locate_core eqc thr cfg rawref s1 s2 = Some (rs, re, qs, qe, sc, e) ->
-    ed (zslice s1 rs re) (zslice s2 qs qe) c -> e <= c.
+    q0 <= qs /\ forall qs' c, q0 <= qs' <= qe -> ed (zslice s1 rs re) (zslice s2 qs' qe) c -> e <= c.
   Proof.
-    intros Hloc Hed.
+    intros Hloc.
     pose proof (locate_core_structure eqc thr cfg rawref s1 s2 _ k_nonneg Hloc) as Hres. unfold result_ok in Hres.
     destruct Hres as (R1 & R2 & R3 & R4 & R5 & R6 & R7 & _ & _ & _ & _ & R12).
     assert (Hek : e <= k) by (pose proof (thr_bound (eff_len cfg rawref s1 (re - rs) re)); lia).
@@ -334,8 +335,17 @@ Section Tail.
     destruct (b_cost bestf =? nb) eqn:Enb; [discriminate|]. apply Z.eqb_neq in Enb.
     destruct Hbf as [Hbf|[Ho HL]]; [contradiction|].
     destruct (0 <=? b_origin bestf) eqn:Eo; intros Hr; inversion Hr; subst; clear Hr.
-    - pose proof (HL (b_origin bestf) c ltac:(lia) Hed) as Hx. unfold capk in Hx. lia.
+    - split; [exact Ho|]. intros qs' c Hq Hed. pose proof (HL qs' c ltac:(lia) Hed) as Hx. unfold capk in Hx. lia.
     - apply Z.leb_gt in Eo. lia.
+  Qed.
+
+  Theorem locate_core_opt_tail rs re qs qe sc e c :
+    locate_core eqc thr cfg rawref s1 s2 = Some (rs, re, qs, qe, sc, e) ->
+    ed (zslice s1 rs re) (zslice s2 qs qe) c -> e <= c.
+  Proof.
+    intros Hloc Hed. destruct (locate_core_opt_tail_gen rs re qs qe sc e Hloc) as [Hq H].
+    pose proof (locate_core_structure eqc thr cfg rawref s1 s2 _ k_nonneg Hloc) as Hres. unfold result_ok in Hres.
+    apply (H qs c); [lia | exact Hed].
   Qed.
 End Tail.
 
